@@ -72,7 +72,7 @@ Section ExecUnk.
     tk t = KMacro -> txt_is t (s2l "\def") = false -> assoc (txt t) (macros st) = None ->
     exists st',
       step_seq T rd rec fuel st (t :: b) env_stop rout =
-        rec (TSeq (ActionT (pos t) :: skip_space b) env_stop rout) st' /\
+        rec (TSeq (ActionT (pos t) :: skip_ctl b) env_stop rout) st' /\
       unknowns st' = add_unknown (unknowns st) (txt t) /\ macros st' = macros st.
   Proof.
     intros Hk Hd Hm. unfold step_seq. rewrite Hk, Hd.
